@@ -410,6 +410,19 @@ func c10Directed(c *core.Ctx) bool {
 		c.Violation("issue-paths|IssuePath-with-brackets", map[string]any{"schema": "Slice(String().Min(3, IssuePath(\"tags[]\")))", "input": "[a, long enough, b]", "keys_parse": keysOf(m), "keys_validate": keysOf(m2), "want": "both failing items under the one key tags[]"})
 		return false
 	}
+	// IssuePath("$root") files a nested node's issue under the root key, like every other IssuePath names its key
+	type accountT struct {
+		Account struct{ Pass, Confirm string }
+	}
+	var at accountT
+	m = z.Struct(z.Schema{"account": z.Struct(z.Schema{"pass": z.String(), "confirm": z.String().Min(8, z.IssuePath("$root"))})}).Parse(map[string]any{"account": map[string]any{"pass": "x", "confirm": "y"}}, &at)
+	c.Eval(1)
+	if keysOf(m) != "$root" && keysOf(m) != "(issue with path \"$root\" under key \"$root\"), $root" {
+		if len(m["$root"]) != 1 || len(m) != 2 {
+			c.Violation("issue-paths|IssuePath-root", map[string]any{"schema": "{account: Struct{pass, confirm: String().Min(8, IssuePath(\"$root\"))}}", "keys": keysOf(m), "want": "$root"})
+			return false
+		}
+	}
 	// SanitizeMap / SanitizeList mirror the issue map: same keys, same number of entries in the same order, whatever the messages are
 	silent := z.WithIssueFormatter(func(e *z.ZogIssue, ctx z.Ctx) {
 		if e.Code == "min" {
